@@ -77,7 +77,7 @@ def handleSum (l : Line) : IO Unit := do
     { center := bitsD l "ic", lo := bitsD l "ilo", hi := bitsD l "ihi", conf := bitsD l "iconf",
       warn := l.getD "iwarn" != "-", warnText := l.getD "iwarn", pct := unhexStr (l.getD "ipct"),
       wn := (l.nat? "wn").getD 0, wfin := l.getD "wfin" == "1", wprev := l.getD "wprev" == "1",
-      rev := l.getD "irev", alt := l.getD "ialt" }
+      rev := l.getD "irev", alt := l.getD "ialt", imod := l.getD "imod" }
   let v := match a with
     | "exact" => Spec.MathSpec.judgeExact vals impl
     | "nothing" => Spec.MathSpec.judgeNothing vals conf ((l.nat? "qlo").getD 0) ((l.nat? "qhi").getD 0) (needTab (l.getD "need")) impl
@@ -88,7 +88,7 @@ def comparisonOf (l : Line) : String × Comparison :=
   let a := l.getD "a"
   let alpha := bitsD l "alpha"
   let s1 : Sample F64.Bits := newSample (bitsList (l.getD "v1")) { compareAlpha := alpha }
-  let s2 : Sample F64.Bits := newSample (bitsList (l.getD "v2")) { compareAlpha := 0x3FE8000000000000 }
+  let s2 : Sample F64.Bits := newSample (bitsList (l.getD "v2")) { compareAlpha := bitsD l "alpha2" }
   let c := match a with
     | "exact" => Exact.compare s1 s2
     | "nothing" => Nothing.compare s1 s2 { differs := testResult (l.getD "ud"), less12 := testResult (l.getD "ul1"),
@@ -105,7 +105,8 @@ def handleCmp (l : Line) : IO Unit := do
   let impl : Spec.MathSpec.ImplComparison :=
     { p := bitsD l "ip", n1 := (l.nat? "in1").getD 0, n2 := (l.nat? "in2").getD 0, alpha := bitsD l "ialpha",
       p21 := bitsD l "ip21", psh := bitsD l "ipsh", psc := bitsD l "ipsc",
-      delta := unhexStr (l.getD "idelta"), str := unhexStr (l.getD "istr"), warn := l.getD "iwarn" }
+      delta := unhexStr (l.getD "idelta"), str := unhexStr (l.getD "istr"), warn := l.getD "iwarn",
+      alpha2 := bitsD l "alpha2", imod := l.getD "imod" }
   -- samples containing NaN are outside the property's quantifier: correspondence only
   if l.getD "nan" == "1" then return
   let v := Spec.MathSpec.judgeCompare a (bitsList (l.getD "v1")) (bitsList (l.getD "v2")) (bitsD l "alpha") old new impl
@@ -168,6 +169,17 @@ def handle (l : Line) : IO Unit := do
   | "fd" => handleFd l
   | "pr" => handlePr l
   | "alias" => handleAlias l
+  | "conc" =>
+    -- calls from several goroutines at once on the same samples: every result equals the sequential one
+    let jobs := (l.getD "jobs").splitOn ","
+    IO.println s!"obs {l.id} jobs={jobs.length}"
+    let bad := ((jobs.zip (((l.getD "rc").splitOn ",").zip ((l.getD "rs").splitOn ","))).filter fun (_, (x, y)) => x != y).map (·.1)
+    IO.println s!"spec {l.id} conc={if bad.isEmpty then "ok" else "differs-from-sequential:" ++ "+".intercalate (bad.take 3)}"
+  | "glob" =>
+    -- package-level state after the whole run: DefaultThresholds.CompareAlpha = 0.05, the table intact
+    IO.println s!"obs {l.id} default={F64.toHex 0x3FA999999999999A} minp={showList Nothing.uTestMinP}"
+    let d := if bitsD l "idef" == 0x3FA999999999999A then "ok" else "default-thresholds-modified"
+    IO.println s!"spec {l.id} default={d} minp={Spec.MathSpec.judgeMinP (bitsList (l.getD "itab"))}"
   | "tab" =>
     IO.println s!"obs {l.id} minp={showList Nothing.uTestMinP}"
     IO.println s!"spec {l.id} minp={Spec.MathSpec.judgeMinP (bitsList (l.getD "itab"))}"
